@@ -56,6 +56,8 @@ def _long_elbows(rng, count):
                                (rng.randint(200, 300), rng.randint(200, 300))])
         dxs = [rng.randint(1, 4) for _ in range(a + b)]
         s1, s2 = rng.sample(range(-64, 65), 2)
+        if k % 7 == 3:
+            s1, s2 = rng.choice([(0, s2 or 5), (s1 or -7, 0)])      # one flat arm
         off8 = rng.choice([0, 4, 8 * 4096, 2, 1, 8 * 17])
         x, y = 0, off8
         pts = [[x, y]]
@@ -64,7 +66,7 @@ def _long_elbows(rng, count):
             y += (s1 if i < a else s2) * d
             pts.append([x, y])
         ys = [p[1] for p in pts]
-        mono = all(ys[i] < ys[i + 1] for i in range(len(ys) - 1)) or all(ys[i] > ys[i + 1] for i in range(len(ys) - 1))
+        mono = all(ys[i] <= ys[i + 1] for i in range(len(ys) - 1)) or all(ys[i] >= ys[i + 1] for i in range(len(ys) - 1))   # weakly monotone (a flat arm counts)
         out.append({"id": "L%d" % k, "pts": pts, "corner": a, "mono": mono})
     return out
 
